@@ -31,10 +31,54 @@ def walk(nodes):
         yield from walk(n['adds'])
 
 
+# An action may be declared without a callable (`"call": "none"`: a pure marker that only takes part in conflict
+# detection, e.g. what add_request_method(name=…) registers) or without a callable but with an introspectable
+# (`"call": "intr"`).  Whether an action has a callable is irrelevant to conflict resolution (the model does not
+# even carry the attribute); it only decides what can be *observed*: a marker leaves no trace, an introspectable
+# logs the id when it is registered (right after the callable would have run).  Such actions append nothing.
+CALLS = ('fn', 'none', 'intr')
+
+
+def call_of(n):
+    return n.get('call', 'fn')
+
+
+def silent_ids(case):
+    """ids whose execution cannot be observed on the implementation"""
+    if case['via'] == 'program':
+        return {s['id'] for s, _ in walk_prog(case['prog']) if s['op'] == 'declare' and call_of(s) == 'none'}
+    return {n['id'] for n in walk(case['top']) if call_of(n) == 'none'}
+
+
+def _calls_ok(nodes, kids_key):
+    """markers append nothing; no thunk reads whether an unobservable action has run"""
+    nodes = list(nodes)
+    silent = {n['id'] for n in nodes if call_of(n) == 'none'}
+    for n in nodes:
+        if call_of(n) not in CALLS or (call_of(n) != 'fn' and n[kids_key]):
+            return False
+        if 'call' in n and n['call'] == 'fn':
+            return False                       # canonical form: the default is not written
+        if isinstance(n['disc'], dict) and n['disc']['dep'] in silent:
+            return False
+    return True
+
+
+class _Intr:
+    """a minimal introspectable: execute_actions / Configurator.action call register(introspector, info)"""
+    def __init__(self, log, i):
+        self.log, self.i = log, i
+
+    def register(self, introspector, action_info):
+        self.log.append(self.i)
+
+
 def well_formed(case):
     try:
         if case.get('via') == 'program':
             return well_formed_program(case)
+        if not _calls_ok(walk(case['top']), 'adds'):
+            return False
         if case.get('via') not in ('state', 'config') or not isinstance(case['top'], list):
             return False
         ids = []
@@ -164,6 +208,8 @@ def _dname(v):
 
 
 def _dnum(s):
+    if s is None:            # a conflict keyed by None can only come from a changed tree; keep it visible, do not crash
+        return -1
     return int(s[1:])
 
 
@@ -224,14 +270,15 @@ def impl_state(case):
             log.append(n['id'])
             for k in n['adds']:
                 declare(k)
-        st.action(_mk_disc(n, log, evals), call, order=n['order'],
-                  includepath=tuple('vf:inc_%03d' % x for x in n['path']), info='action %d' % n['id'])
+        st.action(_mk_disc(n, log, evals), call if call_of(n) == 'fn' else None, order=n['order'],
+                  includepath=tuple('vf:inc_%03d' % x for x in n['path']), info='action %d' % n['id'],
+                  introspectables=(_Intr(log, n['id']),) if call_of(n) == 'intr' else ())
 
     for n in case['top']:
         declare(n)
     exc = None
     try:
-        st.execute_actions()
+        st.execute_actions(introspector=object())
     except Exception as e:
         exc = e
     return _outcome(exc, log, evals, nodes)
@@ -285,7 +332,8 @@ def impl_config(case, full=False):
             declare_list(n['adds'])
         got = tuple(int(s.rsplit('_', 1)[1]) for s in cfg.includepath)
         paths_seen[n['id']] = got
-        cfg.action(_mk_disc(n, log, evals), call, order=n['order'])
+        cfg.action(_mk_disc(n, log, evals), call if call_of(n) == 'fn' else None, order=n['order'],
+                   introspectables=(_Intr(log, n['id']),) if call_of(n) == 'intr' else ())
 
     def declare_list(lst):
         """recursive descent: stay inside an includeme call frame as long as the next declaration belongs to
@@ -344,7 +392,7 @@ def well_formed_program(case):
     for s, in_body in walk_prog(case['prog']):
         op = s.get('op')
         if op == 'declare':
-            if set(s) != {'op', 'id', 'disc', 'order', 'body'} or not isinstance(s['body'], list):
+            if set(s) - {'call'} != {'op', 'id', 'disc', 'order', 'body'} or not isinstance(s['body'], list):
                 return False
             if not (isinstance(s['id'], int) and s['id'] >= 0 and isinstance(s['order'], int)):
                 return False
@@ -372,6 +420,8 @@ def well_formed_program(case):
         # route_prefix_context sets the prefix on the *including* configurator while the body runs, so a commit()
         # issued inside such a body lets callables closed over the parent see the child's prefix (dynamic scoping);
         # the model treats route prefixes lexically and leaves this combination out
+        return False
+    if not _calls_ok([s for s, _ in walk_prog(case['prog']) if s['op'] == 'declare'], 'body'):
         return False
     return len(set(ids)) == len(ids)
 
@@ -420,7 +470,8 @@ def impl_program(case):
                     seg['during'].setdefault(seg['stack'][-1], []).append(s['id'])
                 else:
                     seg['top'].append(s['id'])
-                cfg.action(_mk_disc(s, log, evals), call, order=s['order'])
+                cfg.action(_mk_disc(s, log, evals), call if call_of(s) == 'fn' else None, order=s['order'],
+                           introspectables=(_Intr(log, s['id']),) if call_of(s) == 'intr' else ())
             elif s['op'] == 'include':
                 def inc(c, s=s):
                     run_stmts(c, s['body'])
@@ -526,8 +577,11 @@ def flat_case(case, commit):
     paths = commit['paths']
 
     def node(i):
-        return {'id': i, 'disc': nodes[i]['disc'], 'order': nodes[i]['order'], 'path': paths[i],
-                'adds': [node(k) for k in commit['flat']['during'].get(str(i), [])]}
+        n = {'id': i, 'disc': nodes[i]['disc'], 'order': nodes[i]['order'], 'path': paths[i],
+             'adds': [node(k) for k in commit['flat']['during'].get(str(i), [])]}
+        if 'call' in nodes[i]:
+            n['call'] = nodes[i]['call']
+        return n
     return {'via': 'state', 'top': [node(i) for i in commit['flat']['top']]}
 
 
@@ -542,7 +596,7 @@ def judge_program(case, got):
                           'from the root to the declaring callable: %s' % wrong[:3]}
     if case['autocommit']:
         ref = ref_declared(case, [])
-        exp_log = [d[0] for d in ref]
+        exp_log = [d[0] for d in ref if d[0] not in silent_ids(case)]
         if got['declared'] != ref or got['log'] != exp_log:
             return {'case': case, 'impl': got, 'expected': {'declared': ref, 'log': exp_log},
                     'detail': 'autocommit: every declaration must execute immediately, in declaration order, a re-included spec must be skipped'}
@@ -574,13 +628,15 @@ def compare_model_program(case, got, mo):
     if mo is None:
         return None
     bad = 'error' in mo
+    sil = silent_ids(case)
     if not bad and case['autocommit']:
-        bad = got['log'] != mo['log'] or got['discs'] != mo['discs'] or got['declared'] != mo['declared']
+        mv = observable(mo, sil)
+        bad = got['log'] != mv['log'] or got['discs'] != mv['discs'] or got['declared'] != mo['declared']
     elif not bad:
         bad = (mo['bad'] or got['aborted'] != mo['aborted'] or got['declared'] != mo['declared']
                or got['pending'] != mo['pending'] or got['pending_paths'] != [p[1] for p in mo['pending']]
                or len(got['commits']) != len(mo['commits'])
-               or any(any(g[k] != m[k] for k in PVIEW) for g, m in zip(got['commits'], mo['commits'])))
+               or any(any(g[k] != observable(m, sil)[k] for k in PVIEW) for g, m in zip(got['commits'], mo['commits'])))
     if bad:
         return {'case': case, 'impl': {k: v for k, v in got.items()}, 'model': mo}
     return None
@@ -595,6 +651,7 @@ def gen_program(rng):
     pdef = rng.choice([0, 0, 0.15, 0.3])
     pbody = rng.choice([0, 0.15, 0.3])
     pcommit = rng.choice([0, 0.05, 0.12, 0.2])
+    pcall = rng.choice([0, 0.2, 0.3, 0.45])
     counter = [0]
     budget = [rng.choice([4, 6, 8, 10, 12, 14])]
 
@@ -609,6 +666,9 @@ def gen_program(rng):
             dep = rng.randrange(0, max(1, counter[0] + 2))
             disc = {'dep': dep, 'a': disc, 'b': other} if rng.random() < 0.5 else {'dep': dep, 'a': other, 'b': disc}
         body = []
+        if rng.random() < pcall:
+            return {'op': 'declare', 'id': i, 'disc': disc, 'order': rng.choice(phases), 'body': [],
+                    'call': 'none' if rng.random() < 0.65 else 'intr'}
         if depth < 3 and budget[0] > 0 and rng.random() < pbody:
             body = stmts(depth + 1, True, order, rng.choice([1, 1, 2]))
         return {'op': 'declare', 'id': i, 'disc': disc, 'order': order, 'body': body}
@@ -632,6 +692,7 @@ def gen_program(rng):
     prog = stmts(0, False, -100, rng.choice([2, 3, 4, 5, 6, 8]))
     if not auto and rng.random() < 0.8:
         prog.append({'op': 'commit'})
+    _fix_calls([x for x, _ in walk_prog(prog) if x['op'] == 'declare'])
     if not auto and _commit_under_prefix(prog, False):
         def strip(ss):
             for x in ss:
@@ -659,11 +720,27 @@ def impl(case):
 VIEW = ('out', 'keys', 'regress', 'log')
 
 
+def observable(res, silent):
+    """what of a reference/model result can be seen on the implementation: executions of markers (no callable, no
+    introspectable) leave no trace, so they are taken out of the log (and the thunk evaluation points, which are
+    log lengths, are counted without them)"""
+    if not silent:
+        return res
+    r = dict(res)
+    full = list(res['log'])
+    r['log'] = [i for i in full if i not in silent]
+    if res.get('discs') is not None:
+        r['discs'] = [d for d in res['discs'] if d[0] not in silent]
+    if isinstance(res.get('evals'), dict):
+        r['evals'] = {i: (len([x for x in full[:t] if x not in silent]), v) for i, (t, v) in res['evals'].items()}
+    return r
+
+
 def judge(case, got):
     """property oracle on one implementation trace -> violation dict or None"""
     if case['via'] == 'program':
         return judge_program(case, got)
-    exp = expected(case)
+    exp = observable(expected(case), silent_ids(case))
     if got.get('include_paths_wrong'):
         return {'case': case, 'impl': got, 'expected': spec_view(exp),
                 'detail': 'Configurator.include did not give the nested configurator includepath + (spec,): '
@@ -692,7 +769,8 @@ def compare_model(case, got, mo):
         return None
     if case['via'] == 'program':
         return compare_model_program(case, got, mo)
-    if 'error' in mo or not mo.get('wf') or any(got[k] != mo.get(k) for k in VIEW) or got['discs'] != mo.get('discs'):
+    mv = observable(mo, silent_ids(case)) if 'log' in mo else mo
+    if 'error' in mo or not mo.get('wf') or any(got[k] != mv.get(k) for k in VIEW) or got['discs'] != mv.get('discs'):
         return {'case': case, 'impl': {k: got[k] for k in VIEW + ('discs',)}, 'model': mo}
     return None
 
@@ -716,6 +794,41 @@ def gen_tree(rng, unique_labels):
     return paths
 
 
+def _fix_calls(nodes):
+    """a thunk must not read whether an unobservable marker has run: such a marker gets an introspectable"""
+    deps = {n['disc']['dep'] for n in nodes if isinstance(n['disc'], dict)}
+    for n in nodes:
+        if n.get('call') == 'none' and n['id'] in deps:
+            n['call'] = 'intr'
+
+
+def gen_marker_case(rng):
+    """a marker (no callable) resolved first, and a second action with its discriminator reaching resolution later:
+    in a later phase, or appended by an executing action of the same or a later phase; include paths equal,
+    deeper, shallower or unrelated"""
+    paths = [[], [1], [1, 2], [3]]
+    p0 = rng.choice(paths)
+    p1 = rng.choice(paths)
+    o0 = rng.choice([-10, 0])
+    o1 = rng.choice([o0, o0 + 10, o0 + 10])
+    marker = {'id': 0, 'disc': 1, 'order': o0, 'path': p0, 'adds': [], 'call': rng.choice(['none', 'none', 'intr'])}
+    late = {'id': 1, 'disc': 1, 'order': o1, 'path': p1, 'adds': []}
+    if rng.random() < 0.3:
+        late['call'] = rng.choice(['none', 'intr'])
+    extra = [{'id': 10 + k, 'disc': rng.choice([None, 2, 1]), 'order': rng.choice([o0, o1]), 'path': rng.choice(paths), 'adds': []}
+             for k in range(rng.choice([0, 0, 1, 2]))]
+    if rng.random() < 0.5:
+        top = [marker, late] if rng.random() < 0.7 else [late, marker]
+        top += extra
+    else:
+        parent = {'id': 2, 'disc': rng.choice([None, 2]), 'order': rng.choice([o0, o1]), 'path': rng.choice(paths), 'adds': [late]}
+        top = [marker, parent] + extra
+        if late['order'] < parent['order']:
+            late['order'] = parent['order']
+    rng.shuffle(extra)
+    return {'via': rng.choice(['state', 'state', 'config']), 'top': top}
+
+
 def gen_case(rng, via=None):
     via = via or ('config' if rng.random() < 0.3 else 'state')
     paths = gen_tree(rng, via == 'config')
@@ -731,6 +844,7 @@ def gen_case(rng, via=None):
     home = {d: rng.choice(phases) for d in range(1, ndisc + 1)}
     used = {}                     # discriminator -> include paths already used with it
     chain = rng.choice([0.0, 0.5, 0.8])
+    pcall = rng.choice([0, 0.2, 0.3, 0.45])          # actions without a callable (markers / introspectable-only)
 
     def mk(depth, min_phase):
         i = counter[0]; counter[0] += 1; budget[0] -= 1
@@ -761,6 +875,11 @@ def gen_case(rng, via=None):
                     path = rng.choice(rel)
             prior.append(path)
         node = {'id': i, 'disc': disc, 'order': order, 'path': list(path), 'adds': []}
+        if rng.random() < pcall:
+            node['call'] = 'none' if rng.random() < 0.65 else 'intr'
+            if rng.random() < 0.5:
+                node['order'] = rng.choice(phases)     # markers meet later/earlier phases of their discriminator
+            return node
         if depth < 2 and budget[0] > 0 and rng.random() < padd:
             for _ in range(rng.choice([1, 1, 2, 3])):
                 if budget[0] > 0:
@@ -768,6 +887,7 @@ def gen_case(rng, via=None):
         return node
 
     top = [mk(0, -100) for _ in range(ntop)]
+    _fix_calls(list(walk(top)))
     case = {'via': via, 'top': top}
     if via == 'config' and rng.random() < 0.15:
         case['full'] = True
@@ -802,14 +922,21 @@ SCOPE_PATHS = [[], [1], [1, 2], [3]]
 SCOPE_ATOMS = [(d, o, p) for d in (None, 1, 2) for o in (0, 10) for p in range(4)]
 
 
+SCOPE_ATOMS_CALL = SCOPE_ATOMS + [a + ('none',) for a in SCOPE_ATOMS]
+
+
 def scope_node(i, a, adds=()):
-    return {'id': i, 'disc': a[0], 'order': a[1], 'path': list(SCOPE_PATHS[a[2]]), 'adds': list(adds)}
+    n = {'id': i, 'disc': a[0], 'order': a[1], 'path': list(SCOPE_PATHS[a[2]]), 'adds': list(adds)}
+    if len(a) > 3:
+        n['call'] = a[3]
+    return n
 
 
 def scope_cases(maxsize):
-    """every declaration list of <= maxsize actions over {None,1,2} x phases {0,10} x the 4-node include tree"""
+    """every declaration list of <= maxsize actions over {None,1,2} x phases {0,10} x the 4-node include tree x
+    {callable, no callable}"""
     for size in range(1, maxsize + 1):
-        for combo in itertools.product(SCOPE_ATOMS, repeat=size):
+        for combo in itertools.product(SCOPE_ATOMS_CALL, repeat=size):
             yield {'via': 'state', 'top': [scope_node(i, a) for i, a in enumerate(combo)]}
 
 
@@ -822,13 +949,14 @@ def run(ctx):
     cases += scope
     ncorpus += len(scope)
     cases += [gen_case(rng) for _ in range(n)]
+    cases += [gen_marker_case(rng) for _ in range(ctx.n(600, 6000))]
     cases += [gen_program(rng) for _ in range(ctx.n(2500, 40000))]
     model = ctx.run_model([model_input(c) for c in cases]) if ctx.driver_path else [None] * len(cases)
     mism, viol, agree = [], [], 0
     seen, nontriv = set(), set()
     dist = {'via': {}, 'outcome': {}, 'declared_actions': {}, 'phases_used': {}, 'with_adds': 0, 'with_deferred': 0,
             'shared_discriminator': 0, 'overridden_some': 0, 'executed_len': {}, 'static_spec_checked': 0,
-            'late_siblings_discarded': 0, 'include_depth_max': {}, 'full_configurator': 0, 'conflict_key_count': {},
+            'late_siblings_discarded': 0, 'without_callable': 0, 'marker_then_same_disc_later': 0, 'include_depth_max': {}, 'full_configurator': 0, 'conflict_key_count': {},
             'program': {'autocommit': 0, 'commits': {}, 'reincluded_spec': 0, 'include_in_action_body': 0, 'aborted': 0,
                         'commit_outcomes': {}, 'declared': {}, 'with_route_prefix': 0, 'nesting_max': {}}}
     for case, mo in zip(cases, model):
@@ -877,6 +1005,10 @@ def run(ctx):
         if got['out'] == 'conflict':
             vfutil.bump(dist['conflict_key_count'], len(got['keys']))
         if any(x['adds'] for x in nds): dist['with_adds'] += 1
+        if any('call' in x for x in nds): dist['without_callable'] += 1
+        if any('call' in x and x['disc'] is not None and any(y is not x and y['disc'] == x['disc'] and 'call' not in y and
+               (y['order'] > x['order'] or y in [k for z in nds for k in z['adds']]) for y in nds) for x in nds):
+            dist['marker_then_same_disc_later'] += 1
         if any(isinstance(x['disc'], dict) for x in nds): dist['with_deferred'] += 1
         if expected(case)['late_siblings'] and got['out'] != 'conflict': dist['late_siblings_discarded'] += 1
         if got['out'] == 'ok' and len(got['log']) < len(nds): dist['overridden_some'] += 1
@@ -928,7 +1060,7 @@ def search(ctx):
     node = scope_node
 
     for size in (1, 2, 3, 4):
-        for combo in itertools.product(atoms, repeat=size):
+        for combo in itertools.product(atoms if size == 4 else SCOPE_ATOMS_CALL, repeat=size):
             if ctx.time_left() < 60 or len(viol) >= 3:
                 exhaustive = False
                 break
